@@ -4,6 +4,7 @@
 import math
 from vlib.common import *
 from props import c09_replaylib as RL
+from props import kinematics
 
 TOL0 = Fraction(1, 10**12)     # zero delay, exact rational model vs Rust
 TOLI = "1e-10"                 # non-zero delay, interval goal
@@ -471,16 +472,19 @@ def run(ctx):
     binp = build_harness(ctx)
     RL.install(ctx)
     if getattr(ctx, "replay", None):
+        status = kinematics.try_replay(ctx, binp)      # a record written by the kinematics stage (transit times of hom_time_delay)
+        if status is not None:
+            return status
         status = RL.replay(ctx, binp, "C09", ["hom", "pm_integrand", "grid"], replay_evaluate)
         if status is not None:
             return status
         ctx.violations.clear()
         ctx.proof_failures.clear()
         ctx.cov["obligations"] = ctx.cov["discharged"] = 0
-    msgs, spans = regen(ctx, ["hom", "pm_integrand", "grid"])
+    msgs, spans = regen(ctx, ["hom", "pm_integrand", "grid", "kinematics"])
     ctx.cov["translated_spans"] = {k: v for k, v in spans.items() if "hom" in v["file"]}
     for m in msgs:
-        ctx.proof_failures.append(("Gen/HomSrc.v", "translator", m))
+        ctx.proof_failures.append(("Gen/Kinematics.v" if m.rstrip().endswith("[generator kinematics]") else "Gen/HomSrc.v", "translator", m))
     proved = (not msgs) and prove(ctx, "C09")
     quick = ctx.tier == "quick"
     ncases, max_side, nsetup, ngauss = (84, 8, 9, 6) if quick else (350, 16, 36, 30)
@@ -496,6 +500,9 @@ def run(ctx):
         correspondence(ctx, obs, 64 if quick else 144, 25 if quick else 36, 32 if quick else 96)
     else:
         ctx.note("correspondence skipped: Model/Hom.v did not compile")
+    # the transit times entering hom_time_delay: generated Beam kinematics (Gen/Kinematics.v) against the implementation
+    RL.cur(ctx, None)
+    kinematics.run_stage(ctx, binp, n=16 if quick else 150)
     if (not proved or ctx.case_failures) and not unknown_failing(ctx):
         ctx.log("S5 deep search for a failing input (obligations broken or model/implementation disagree)")
         for k in range(3):
@@ -524,6 +531,9 @@ def run(ctx):
             "(executable twin by vm_compute at zero delay, C09_total_exec_twin; Python mirror at the other delays)",
         "composition with the generated spectrum model (C06)": "proved (C09_symmetric_setup_dip: exchange-symmetric setups give rate 0 at zero delay for every "
             "quadrature; C09_setup_is_array_with_twin: the second array is the exchanged twin's jsa_range); measured Rust-vs-Rust on 6 setups and their twins",
+        "hom_time_delay / two-source delays = differences of (L/2)/|cos theta|/v_g on the generated Beam::average_transit_time and group_velocity":
+            "proved (C09_hom_time_delay_from_beams, C09_two_source_time_delays_from_beams over Gen/Kinematics.v); generated kinematics = "
+            "implementation by interval goals (1e-11), implementation = the property's formulas on its own index samples (S5, 1e-9)",
         "binary64 result vs real model": "validated_only (vm_compute at zero delay and, with Pythagorean phases, at delays m0 atan(4/3)/h, 1e-12; interval goals at other delays 1e-10)"}
     return finish(ctx, assumptions=[
         "arrays have the grid's length (as every caller in the crate passes); shorter arrays panic on indexing, not modelled",
